@@ -37,7 +37,7 @@ fn check(returned: &[usize], members: &BTreeSet<usize>, sender: usize, limit: us
 
 fn main() {
     let args = Args::parse();
-    std::panic::set_hook(Box::new(|_| {}));
+    vcore::quiet_panics();
     let mut report = Report::new(
         "ws_select",
         "ws offer-recipient selection (extract_response_peers) with a scripted RNG: map size x limit x sender position (absent / every index) x every (offset1, offset2) outcome; \
